@@ -99,6 +99,10 @@ def q(op, query, dim=2):
     return "%s %s %s %s" % (op, pt(query[0], dim), pt(query[1], dim), F(THR))
 
 
+def qg(op, start, goals, dim=2):
+    return "%s %s %d %s %s" % (op, pt(start, dim), len(goals), " ".join(pt(g, dim) for g in goals), F(THR))
+
+
 # ---------------------------------------------------------------------------------- histories
 def histories(tier):
     """name -> function(k, kbig) -> list of op lines (after the header).  k is the enumerated interruption index;
@@ -121,6 +125,10 @@ def histories(tier):
         # status truthfulness after ProblemDefinition::clearSolutionPaths() between solves; goal sealed (env "sealed"):
         # only approximate solutions exist.  k in CLEARSOL_KS only.
         "clearsol-sealed": lambda k, K: [q("setpd", QA), "solve %d" % SEALED_K, "clearsol", "solve %d" % k, "solve %d" % SEALED_K],
+        # a GoalStates goal with two states (the second one is nearer): planners that fold every goal-satisfying state
+        # into one goal vertex get inconsistent graphs here
+        "multigoal": lambda k, K: [qg("setpdg", QA[0], [QA[1], (0.55, 0.2)]), "solve %d" % k, "solve %d" % k, "solve %d" % K,
+                                   "getpd", "solve %d" % k, "clear", "solve %d" % k],
         "swap": lambda k, K: [q("setpd", QA), "solve %d" % K, "clear", q("setsg", QSWAP), "solve %d" % k, "solve %d" % K],
         "invalid-start": lambda k, K: [q("setpd", QINV), "solve %d" % k, "addstart " + pt(QA[0]), "solve %d" % k,
                                        "solve %d" % K],
@@ -184,10 +192,10 @@ def contexts(ops):
             if op in ("clear", "clearQuery"):
                 dirty = False
                 has_data = False
-            if op in ("setpd", "mutpd") and has_data:
+            if op in ("setpd", "setpdg", "mutpd") and has_data:
                 dirty = True
-            if op in ("clear", "clearQuery", "setpd", "setsg", "mutpd", "addstart", "clearsol"):
-                if op == "setpd" and state == "first" and not pending:
+            if op in ("clear", "clearQuery", "setpd", "setpdg", "setsg", "mutpd", "addstart", "clearsol"):
+                if op in ("setpd", "setpdg") and state == "first" and not pending:
                     continue
                 pending.append(op)
     return ctx
@@ -215,6 +223,12 @@ def oracle(planner, ops, out, rc, err):
             return fails
         o = out[i]
         op = ln.split()[0]
+        if o.startswith("solve NORETURN"):
+            # the harness's watchdog: the termination condition HAD been evaluated true and solve() did not return within
+            # the hard wall limit (header limit=<s>, default 30 s); the process was ended there
+            fails.append((i, "no-return-after-fire", "solve did not return within %s s after ptc fired (%s)"
+                          % (kv(o).get("limit_s", "?"), o[:120])))
+            return fails
         if o.startswith("bad-op") or not o.startswith(op):
             fails.append((i, "protocol", "unexpected line %r" % o[:80]))
             continue
@@ -227,9 +241,9 @@ def oracle(planner, ops, out, rc, err):
             solved_since_clear = roadmap_old = False
         elif op == "solve":
             solved_since_clear = True
-        elif op in ("setpd", "setsg", "mutpd") and solved_since_clear:
+        elif op in ("setpd", "setpdg", "setsg", "mutpd") and solved_since_clear:
             roadmap_old = True
-        if op in ("setpd", "setsg", "mutpd"):
+        if op in ("setpd", "setpdg", "setsg", "mutpd"):
             valid_start = kv(o).get("svalid") == "1"
         elif op == "addstart":
             valid_start = valid_start or kv(o).get("svalid") == "1"
@@ -905,7 +919,7 @@ def run(ck):
     if ck.lean_ok:
         r = ck.rng.fork("lockstep")
         ljobs = []
-        lhs = {n: f for n, f in hs.items() if n not in ("mutpd", "mutpd-clear", "clearsol-sealed")}
+        lhs = {n: f for n, f in hs.items() if n not in ("mutpd", "mutpd-clear", "clearsol-sealed", "multigoal")}
         for planner in LOCKSTEP_CORE:
             lseeds = [seeds[planner], r.below(1000)] if quick else [seeds[planner]] + [r.below(1000) for _ in range(2)]
             for s in lseeds:
